@@ -26,6 +26,8 @@ import (
 	"time"
 
 	mqtt "github.com/at-wat/mqtt-go"
+
+	"verifharness/netsim"
 )
 
 func init() { register("codec", runCodecRaw) }
@@ -133,6 +135,7 @@ type codecTransport struct {
 	mu         sync.Mutex
 	cond       *sync.Cond
 	writes     [][]byte
+	pending    []byte // bytes written that do not form a whole frame yet
 	in         []byte
 	closed     bool
 	script     map[int][]byte // injected after the n-th Write call (1-based)
@@ -151,13 +154,23 @@ func (t *codecTransport) Write(p []byte) (int, error) {
 	if t.closed {
 		return 0, io.ErrClosedPipe
 	}
-	t.writes = append(t.writes, append([]byte{}, p...))
-	n := len(t.writes)
-	if s, ok := t.script[n]; ok {
-		t.in = append(t.in, s...)
-	}
-	if t.closeAfter == n {
-		t.closed = true
+	// a packet may legitimately be handed over in several Write calls (the statement is about the byte stream):
+	// bytes are collected until they form a whole frame; one recorded "write" = one frame
+	t.pending = append(t.pending, p...)
+	for {
+		pkt, k := netsim.Frame(t.pending)
+		if pkt == nil || k == 0 {
+			break
+		}
+		t.writes = append(t.writes, append([]byte{}, t.pending[:k]...))
+		t.pending = t.pending[k:]
+		n := len(t.writes)
+		if s, ok := t.script[n]; ok {
+			t.in = append(t.in, s...)
+		}
+		if t.closeAfter == n {
+			t.closed = true
+		}
 	}
 	t.cond.Broadcast()
 	return len(p), nil
@@ -219,6 +232,8 @@ func (t *codecTransport) after(k int) ([]byte, int) {
 	for i := k; i < len(t.writes); i++ {
 		out = append(out, t.writes[i]...)
 	}
+	// bytes that never became a whole frame are part of what was written (and will not compare equal)
+	out = append(out, t.pending...)
 	return out, len(t.writes)
 }
 
